@@ -2,20 +2,23 @@
 """apply every seeded mutant to /repo, run the check(s) of its property, undo; update meta.json.
 usage: run_mutants.py [name-prefix ...] [--all-props]   (never leaves /repo modified)"""
 import sys, os, json, subprocess, glob, time
+REPO = os.environ.get('VP_RUN_REPO') or os.environ.get('KLEPTO_REPO') or '/repo'
+os.environ['KLEPTO_REPO'] = REPO
+HERE = os.path.dirname(os.path.dirname(os.path.abspath(__file__)))
 args = [a for a in sys.argv[1:] if not a.startswith('--')]
 allprops = '--all-props' in sys.argv
-claimed = [c['property_id'] for c in json.load(open('/verif/MANIFEST.json'))['checks']]
+claimed = [c['property_id'] for c in json.load(open(HERE + '/MANIFEST.json'))['checks']]
 def sh(cmd, **kw):
     return subprocess.run(cmd, shell=True, stdout=subprocess.PIPE, stderr=subprocess.STDOUT, text=True, **kw)
-assert sh('git -C /repo status --porcelain --untracked-files=no').stdout.strip() == '', 'repo not clean'
+assert sh('git -C %s status --porcelain --untracked-files=no' % REPO).stdout.strip() == '', 'repo not clean'
 rows = []
-for d in sorted(glob.glob('/verif/seeded/*/')):
+for d in sorted(glob.glob(HERE + '/seeded/*/')):
     name = os.path.basename(d.rstrip('/'))
     if args and not any(name.startswith(a) for a in args): continue
     meta = json.load(open(d + 'meta.json'))
     prop = meta['property']
     props = claimed if allprops else [prop]
-    r = sh('git -C /repo apply %spatch.diff' % d)
+    r = sh('git -C %s apply %spatch.diff' % (REPO, d))
     if r.returncode != 0:
         rows.append((name, prop, 'PATCH-DOES-NOT-APPLY', '')); print(name, prop, 'PATCH-DOES-NOT-APPLY', flush=True); continue
     caught = {}
@@ -24,13 +27,13 @@ for d in sorted(glob.glob('/verif/seeded/*/')):
             if p not in claimed:
                 caught[p] = 'not-claimed'; continue
             t = time.time()
-            r = sh('cd /verif && ./check %s --tier quick' % p, timeout=1800)
+            r = sh('cd %s && ./check %s --tier quick' % (HERE, p), timeout=1800)
             v = [l for l in r.stdout.splitlines() if l.startswith('VIOLATION')]
             caught[p] = dict(exit=r.returncode, line=v[0] if v else None, secs=round(time.time() - t, 1))
     finally:
-        sh('git -C /repo checkout -- .')
+        sh('git -C %s checkout -- .' % REPO)
     meta['caught_by'] = caught
     json.dump(meta, open(d + 'meta.json', 'w'), indent=1)
     rows.append((name, prop, caught.get(prop), {k: v['exit'] for k, v in caught.items() if isinstance(v, dict)}))
     print(name, prop, caught.get(prop), flush=True)
-assert sh('git -C /repo status --porcelain --untracked-files=no').stdout.strip() == ''
+assert sh('git -C %s status --porcelain --untracked-files=no' % REPO).stdout.strip() == ''
